@@ -33,6 +33,13 @@ def check(ix, rep):
     P.check_optional(ix, rep, stl, rules, ctx)
     P.check_optional(ix, rep, ltl, G.effective_rules(grammars, 'LtlParser'), ctx)
     P.check_unless_sugar(ix, rep)
+    # the LTL front end delays every assertion by its own look-ahead, as the STL front end does
+    from sa.props import c03 as _c03d
+    _c03d.check_pastify_driver(ix, rep, ix.find_class('rtamt.pastifier.ltl.pastifier', 'LtlPastifier'), ix.find_class('rtamt.pastifier.ltl.horizon', 'LtlHorizon'))
+    _c03d.check_pastify_driver(ix, rep, ix.find_class('rtamt.pastifier.stl.pastifier', 'StlPastifier'), ix.find_class('rtamt.pastifier.stl.horizon', 'StlHorizon'))
+    # one node per occurrence: the parser's dispatch hands back the node built for the tree it was given
+    from sa.rules import parserrules as _Pfresh
+    rep.floor('parser dispatch methods checked for node sharing', _Pfresh.check_dispatch_transparent(ix, rep), 2)
     explanation = (
         'Information-flow argument over the front end: the AST builder sees a parse only through (alternative label, child contexts, text of '
         'single-spelling tokens, identifiers, literals); hence two texts whose token-type sequences differ only by alias choice, "," vs ":", '
